@@ -3,6 +3,7 @@ package c09
 
 import (
 	"fmt"
+	"sort"
 	"strings"
 
 	"github.com/zclconf/go-cty/cty"
@@ -27,7 +28,7 @@ func (Driver) Info() core.Info {
 		Assumptions: []string{
 			"a value 'of its input type' is a value whose type conforms to the input type (placeholders instantiated by the value generator)",
 			"'placeholder-free inputs' = no type of the list contains DynamicPseudoType at any depth",
-			"'safe unification never relies on an unsafe conversion' is decided as: in safe mode, for placeholder-free inputs, no returned conversion errors on a generated value, and a safe route exists: convert.GetConversion(input, result) != nil or, for a tuple next to lists / an object next to maps, safe conversions input -> M -> result where M is what the structural inputs unify to on their own",
+			"'safe unification never relies on an unsafe conversion' is decided as: in safe mode, for placeholder-free inputs, no returned conversion errors on a generated value, and a safe route exists: convert.GetConversion(input, result) != nil or, for a tuple next to lists / an object next to maps, safe conversions input -> M -> result where M is the list / map of what the members of all tuple / object inputs unify to",
 			"a nil conversion is read as 'the value is used as it is' (doc comment of convert.Unify), so with placeholders in the list the input type must conform to the unified type",
 			"optional-attribute annotations are not generated: no value has such a type, so the value quantifier would be empty",
 			"type comparisons go through model.TNodeOf / TypeEq / Conforms, not through Type.Equals",
@@ -143,8 +144,8 @@ func shapeClass(types []cty.Type, i int, unified cty.Type, unsafe bool) string {
 // either the plain safe conversion input -> unified type exists, or - where a
 // tuple sits next to lists / an object next to maps, the only place where
 // unify.go composes two conversions - safe conversions exist from the input to
-// the type M the structural inputs unify to on their own and from M to the
-// unified type. (Safe conversions are not transitive: object{a:number,k:bool}
+// an intermediate collection type M (list / map of what the members of all
+// structural inputs unify to) and from M to the unified type. (Safe conversions are not transitive: object{a:number,k:bool}
 // -> object{k:bool} -> map(bool) is a safe chain although number -> bool does
 // not exist, so the plain conversion alone would be too much to ask.)
 func safeRouteExists(c *core.Ctx, types []cty.Type, i int, unified cty.Type) string {
@@ -167,29 +168,58 @@ func safeRouteExists(c *core.Ctx, types []cty.Type, i int, unified cty.Type) str
 	default:
 		return fmt.Sprintf("GetConversion(%#v, %#v) is nil", in, unified)
 	}
-	var structs []cty.Type
+	// members of all structural inputs: tuple elements in order, object attributes by sorted name
+	var members []cty.Type
 	for _, t := range types {
-		if isStruct(t) {
-			structs = append(structs, t)
+		if !isStruct(t) {
+			continue
+		}
+		if t.IsTupleType() {
+			members = append(members, t.TupleElementTypes()...)
+			continue
+		}
+		atys := t.AttributeTypes()
+		names := make([]string, 0, len(atys))
+		for k := range atys {
+			names = append(names, k)
+		}
+		sort.Strings(names)
+		for _, k := range names {
+			members = append(members, atys[k])
 		}
 	}
-	var mid cty.Type
-	o := core.Guard(func() { mid, _ = convert.Unify(structs) })
-	if o.Panicked || mid == cty.NilType {
-		return fmt.Sprintf("GetConversion(%#v, %#v) is nil and the structural inputs do not unify on their own", in, unified)
+	if len(members) == 0 {
+		return fmt.Sprintf("GetConversion(%#v, %#v) is nil and the structural inputs have no members", in, unified)
 	}
-	c.Count("clause:safe-conversion-exists:via-intermediate-type")
-	if !model.TypeEq(model.TNodeOf(in), model.TNodeOf(mid)) {
-		if cv, ok := get(in, mid); ok && cv == nil {
-			return fmt.Sprintf("GetConversion(%#v, %#v) is nil, and so is the first step GetConversion(input, %#v)", in, unified, mid)
+	// candidate intermediate types: collection of what the members unify to (asked in both orders,
+	// because the preference order of incomparable types follows the input order)
+	rev := make([]cty.Type, len(members))
+	for k, m := range members {
+		rev[len(members)-1-k] = m
+	}
+	why := ""
+	for _, ms := range [][]cty.Type{members, rev} {
+		var ety cty.Type
+		o := core.Guard(func() { ety, _ = convert.Unify(ms) })
+		c.Eval(1)
+		if o.Panicked || ety == cty.NilType {
+			why = fmt.Sprintf("GetConversion(%#v, %#v) is nil and the members of the structural inputs do not unify", in, unified)
+			continue
 		}
-	}
-	if !model.TypeEq(model.TNodeOf(mid), model.TNodeOf(unified)) {
-		if cv, ok := get(mid, unified); ok && cv == nil {
-			return fmt.Sprintf("GetConversion(%#v, %#v) is nil, and so is the second step GetConversion(%#v, unified)", in, unified, mid)
+		mid := cty.List(ety)
+		if in.IsObjectType() {
+			mid = cty.Map(ety)
 		}
+		first, ok1 := get(in, mid)
+		second, ok2 := get(mid, unified)
+		midIsUnified := model.TypeEq(model.TNodeOf(mid), model.TNodeOf(unified))
+		if (!ok1 || first != nil) && (midIsUnified || !ok2 || second != nil) {
+			c.Count("clause:safe-conversion-exists:via-intermediate-type")
+			return ""
+		}
+		why = fmt.Sprintf("GetConversion(%#v, %#v) is nil, and no safe two-step route through %#v either (first step exists: %v, second step exists: %v)", in, unified, mid, first != nil, midIsUnified || second != nil)
 	}
-	return ""
+	return why
 }
 
 // valueClass names the most specific feature of a value that conversions are
@@ -249,7 +279,7 @@ func dynClass(types []cty.Type, i int) string {
 }
 
 func (Driver) Run(c *core.Ctx) {
-	n := int64(c.N(3750, 31250)) // x16 batches = 60 k lists quick, x64 = 2 M thorough
+	n := int64(c.N(3750, 23438)) // x16 batches = 60 k lists quick, x64 = 1.5 M thorough
 	for i := int64(0); i < n; i++ {
 		if !c.Want(i) {
 			continue
